@@ -106,6 +106,18 @@ CHECKS["C08"] = dict(level=MC, design="DESIGN.md section 6, C08", note=_SRH_NOTE
          "iff the listing says so. With unchanged sequence and positions the unwind state at every original instruction "
          "is unchanged.")
 
+CHECKS["C09"] = dict(level=MC, design="DESIGN.md section 6, C09", note=_SRH_NOTE + " No repository hook is used: the monitors wrap "
+    "rewriting.insert / rewriting.delete / make_modify_cache / RewritingContext._invoke_patch as module attributes.",
+    technique=_SRH_TECH + "; self-composition of two copies of one symbolic scenario",
+    text="Self-composition: the same symbolic scenario is built twice over the same z3 variables; copy 1 applies all "
+         "modifications in one apply(), copy 2 applies them one context at a time in address order, each located again by "
+         "listing position in the current IR. z3 decides that bytes, symbol positions, block boundaries, CFG edges, "
+         "expressions, offset-keyed aux tables and function tables are equal (up to UUIDs and temporary-label suffixes). "
+         "After every insert()/delete() of the batch run monitors compare functions_by_block with functionBlocks, the "
+         "return-edge cache with a scan of ir.cfg, the block ordering with the section's blocks/offsets, and before every "
+         "patch is assembled that each symbol the patch names reads (directly from the IR) the referent the reference "
+         "cache reports.")
+
 NOT_YET = "check not built yet in this round (planned, see DESIGN.md section 6)"
 
 manifest = {
